@@ -29,6 +29,12 @@ CHECKS = {
             'intermediate observation of every kind (and length <= 2 with two), and its full observation vector is compared with the same mutations replayed '
             'without observations on a cleared world. Failures are attributed to the listed finding F2 only by a counterfactual experiment.',
             'bounded history length and number of observations; hidden state compared through public observers only'),
+    'C05': (MC, '4/C05', 'explicit-state exploration of build programs over all operation classes, three copy routes, one-step independence',
+            'Per-class copy obligations for every concrete operation class found by introspection (all init fields non-default, every relation type); all flat programs '
+            'of length <= 2 over all classes and <= 3 over footprint representatives plus nested programs, each copied by nesting, circuit_structure.copy() and '
+            'top-level repetition and compared row by row with the original; then five mutations applied cumulatively to the original resp. the copy with the '
+            'other side re-read after each.',
+            'bounded program length / alphabet; differential oracle copy vs original'),
 }
 
 
